@@ -113,14 +113,17 @@ MemPairs == { <<Sw("t1", "a0", 0), Lw("t2", "a1", 0)>>, <<Sw("t1", "a0", 0), Lb(
               <<Sw("t1", "a0", 0), Sw("t0", "a1", 0)>>, <<Sw("t1", "a0", 0), Sb("t0", "a1", 1)>>, <<Sb("t1", "a0", 1), Sw("t0", "a1", 0)>>,
               <<Sh("t1", "a0", 0), Sh("t0", "a1", 0)>> }
 Fillers == { Nop, Addi("t3", "t3", 1), Li("t3", 4) }
-MemDepCases == { <<pr, d, f, warm>> : pr \in MemPairs, d \in 1 .. (IF Size = "large" THEN 4 ELSE 3), f \in Fillers, warm \in BOOLEAN }
+(* busy: an older store miss to another line keeps the write path busy while the pair executes *)
+MemDepCases == { <<pr, d, f, warm, busy>> : pr \in MemPairs, d \in 1 .. (IF Size = "large" THEN 4 ELSE 3), f \in Fillers,
+                                          warm \in BOOLEAN, busy \in BOOLEAN }
 MemDepCase(x) ==
   LET pr == x[1] d == x[2]
       pro == IF x[4] THEN <<Lw("t3", "a0", 8), Nop, Nop>> ELSE <<>>
-      p == pro \o <<pr[1]>> \o [k \in 1 .. (d - 1) |-> x[3]] \o <<pr[2]>> \o <<Nop, Nop>>
+      bz == IF x[5] THEN <<Sw("t0", "a1", 64)>> ELSE <<>>
+      p == pro \o bz \o <<pr[1]>> \o [k \in 1 .. (d - 1) |-> x[3]] \o <<pr[2]>> \o <<Nop, Nop>>
       r0 == Regs0(64, 64, -2, 287454020, 0, 0)
       fin == Final(p, r0, "ramp", 256, 64)
-  IN CaseRec("MemDep", p, r0, "ramp", 256, fin, {"t2"}, 64 .. 71, Tags(p, fin), [d |-> d, warm |-> x[4]])
+  IN CaseRec("MemDep", p, r0, "ramp", 256, fin, {"t2"}, 64 .. 71, Tags(p, fin), [d |-> d, warm |-> x[4], busy |-> x[5]])
 
 (* ------------------------------- MemWalk (C05) ----------------------------- *)
 (* loop 1 walks `count` elements with `stride` from `first`, doing `mix`; loop 2 re-reads them and sums into t2 *)
